@@ -156,7 +156,19 @@ pub fn make_variant(base: &History, choices: &[u8]) -> Variant {
                     obs[*h] = None;
                 }
             }
-            Step::ClearGrad { h, via_replace } => out.push(Step::ClearGrad { h: map[*h], via_replace: *via_replace }),
+            // the gradient cell is shared by all clones: clearing through a temporary clone is the same clear
+            Step::ClearGrad { h, via_replace } => {
+                if next(2) {
+                    out.push(Step::Clone { h: map[*h] });
+                    out.push(Step::ClearGrad { h: nslots, via_replace: *via_replace });
+                    out.push(Step::Drop { h: nslots });
+                    nslots += 1;
+                    n_rewrites += 1;
+                    mark(*h, &mut touched);
+                } else {
+                    out.push(Step::ClearGrad { h: map[*h], via_replace: *via_replace });
+                }
+            }
             // a refused call on a handle or on a temporary clone of it: the same (no) effect
             Step::RefusedOp { h } => {
                 if next(2) {
@@ -278,7 +290,7 @@ pub fn base_cfg(exact: bool, t: Tier) -> GenCfg {
     let mut cfg = GenCfg::programs(exact);
     // gradient-descent updates and clears are part of the base programs: whether a parameter's buffer is shared
     // when the optimizer runs depends only on which handles are alive, which is what the variant changes
-    cfg.kinds = vec![(Binary, 30), (Unary, 16), (Leaf, 8), (SumReshape, 8), (Matmul, 7), (Custom, 6), (Flag, 10), (Backward, 9), (Conv, 3), (Retrack, 4), (Update, 5), (ClearGrad, 2), (Refused, 2)];
+    cfg.kinds = vec![(Binary, 30), (Unary, 16), (Leaf, 8), (SumReshape, 8), (Matmul, 7), (Custom, 6), (Flag, 10), (Backward, 9), (Conv, 3), (Retrack, 4), (Update, 5), (ClearGrad, 6), (Refused, 2)];
     cfg.flag_results = true;
     cfg.max_steps = t.pick(14, 36);
     cfg.max_elems = t.pick(48, 200);
